@@ -519,6 +519,14 @@ TCrash ==
                       e.mode \o ":" \o kind \o ":" \o e.point)
           /\ (~PendingOp(kind)) =>
                 Check(rec.spendable >= e.base_pre[w].spendable, "C06", "RecoverByCancel", e, e.mode \o ":" \o kind)
+     \* C05: a cancel interrupted at any point (crash or failing write) has either not happened or is a
+     \* complete rollback: an entry that became cancelled holds no reservation and awaits no output
+     /\ (kind = "cancel" /\ Readable(e.obs.w[w])) =>
+          Check(\A t \in DOMAIN O.w[w].txs :
+                   (O.w[w].txs[t].ty \in {"TxSentCancelled", "TxReceivedCancelled"}
+                    /\ t \in DOMAIN pre.w[w].txs /\ pre.w[w].txs[t].ty \in {"TxSent", "TxReceived"}) =>
+                      LinkedOuts(O, w, t, {"Locked", "Unconfirmed"}) = {},
+                "C05", "CancelAllOrNothing", e, e.mode \o ":" \o e.point)
      \* C15: the key handed out right after the interruption (a coinbase request) was never used
      \* before - neither in the state the operation started from nor in what it left behind
      /\ (Readable(e.obs.w[w]) /\ e.next_key # "") =>
